@@ -42,13 +42,13 @@ import (
 const interval = time.Hour
 
 type action struct {
-	Kind string `json:"kind"` // sleep | wake | finish | fire | enter | pollend | pollfail (OnPoll returns an error) | pollcall | stop-load | stop-start | crash-load | crash-start
+	Kind string `json:"kind"` // sleep | wake | finish | finishfail (the OnSleep/OnWake callback returns an error) | fire | enter | pollend | pollfail (OnPoll returns an error) | pollcall | stop-load | stop-start | crash-load | crash-start
 	Idx  int    `json:"idx,omitempty"`
 }
 
 func (a action) String() string {
 	switch a.Kind {
-	case "finish", "pollend", "pollfail", "enter":
+	case "finish", "finishfail", "pollend", "pollfail", "enter":
 		return fmt.Sprintf("%s%d", a.Kind, a.Idx)
 	}
 	return a.Kind
@@ -85,8 +85,9 @@ type world struct {
 	pollFail   []bool // the OnPoll callback returns an error when released
 	enterGates []chan struct{}
 	enterOpen  []bool
-	starting   int // requester being started (its goroutine id for the callback)
-	epoch      int // process lifetime; callbacks of an earlier lifetime do nothing
+	starting   int  // requester being started (its goroutine id for the callback)
+	epoch      int  // process lifetime; callbacks of an earlier lifetime do nothing
+	reqFail    bool // the callback the requester sits in returns an error when released
 }
 
 func readPersist(path string) (int, bool) {
@@ -163,6 +164,13 @@ func runCase(t *testing.T, dir string, cs *caseSpec) (out []obs, done []action, 
 						w.reqGate = g
 						w.mu.Unlock()
 						<-g
+						w.mu.Lock()
+						fail := w.reqFail
+						w.reqFail = false
+						w.mu.Unlock()
+						if fail {
+							return errCallback
+						}
 						return nil
 					}
 				}
@@ -256,7 +264,7 @@ func runCase(t *testing.T, dir string, cs *caseSpec) (out []obs, done []action, 
 				switch a.Kind {
 				case "sleep", "wake", "pollcall", "stop-load", "stop-start", "crash-load", "crash-start":
 					return w.inCb == -1
-				case "finish":
+				case "finish", "finishfail":
 					return w.inCb == a.Idx && a.Idx >= 0
 				case "fire":
 					// While a requester sits in its callback the lock is held; a Poll started then
@@ -299,6 +307,8 @@ func runCase(t *testing.T, dir string, cs *caseSpec) (out []obs, done []action, 
 							code = 2
 						case sleep.ErrNotSleeping:
 							code = 3
+						case errCallback:
+							code = 5
 						}
 						w.mu.Lock()
 						w.results[j] = code
@@ -307,9 +317,10 @@ func runCase(t *testing.T, dir string, cs *caseSpec) (out []obs, done []action, 
 						}
 						w.mu.Unlock()
 					}(a.Kind, mgr)
-				case "finish":
+				case "finish", "finishfail":
 					w.mu.Lock()
 					g := w.reqGate
+					w.reqFail = a.Kind == "finishfail"
 					w.mu.Unlock()
 					close(g)
 				case "fire":
@@ -367,7 +378,7 @@ func runCase(t *testing.T, dir string, cs *caseSpec) (out []obs, done []action, 
 			w.mu.Unlock()
 			cands := []action{{Kind: "sleep"}, {Kind: "wake"}, {Kind: "fire"}, {Kind: "pollcall"}, {Kind: "stop-load"}, {Kind: "stop-start"}, {Kind: "crash-load"}, {Kind: "crash-start"}}
 			for j := 0; j < nReq; j++ {
-				cands = append(cands, action{Kind: "finish", Idx: j})
+				cands = append(cands, action{Kind: "finish", Idx: j}, action{Kind: "finishfail", Idx: j})
 			}
 			for k := 0; k < nEnter; k++ {
 				cands = append(cands, action{Kind: "enter", Idx: k})
@@ -476,6 +487,74 @@ func agentDoPoll(t *testing.T, dir string, wakeDuringWindow bool) (o agentObs, p
 			synctest.Wait()
 			time.Sleep(10 * time.Millisecond)
 			synctest.Wait()
+			o.PausedEnd = a.VerifPeersPaused()
+		})
+	})
+	return
+}
+
+// agentLocalWake: the agent's own poll cycle (doPoll) is in its poll_duration
+// wait when the agent is woken through the local path (what Agent.TriggerWake
+// / POST /wake do first: sleepMgr.Wake(), no mesh WAKE frame, so nothing
+// cancels the poll context). When the wait ends doPoll must see AWAKE and keep
+// the connections. Reports whether doPoll went on to its DisconnectAll.
+type localWakeObs struct {
+	WakeErr           string `json:"wake_err,omitempty"`
+	StateAtEnd        int    `json:"state_at_end"`
+	ReachedDisconnect bool   `json:"dopoll_reached_disconnect"`
+	PausedEnd         bool   `json:"paused_at_end"`
+	WakeAfterMs       int64  `json:"wake_after_ms"`
+}
+
+func agentLocalWake(t *testing.T, dir string, wakeAfterMs int64) (o localWakeObs, panicked string) {
+	o.WakeAfterMs = wakeAfterMs
+	synctest.Test(t, func(t *testing.T) {
+		panicked = vh.Recover(func() {
+			cfg := config.Default()
+			cfg.Agent.ID = "a0a0a0a0a0a0a0a0a0a0a0a0a0a00000"
+			cfg.Agent.DataDir = dir
+			cfg.Agent.LogLevel = "error"
+			cfg.UDP.Enabled, cfg.ICMP.Enabled, cfg.SOCKS5.Enabled, cfg.HTTP.Enabled = false, false, false, false
+			cfg.Listeners, cfg.Peers = nil, nil
+			cfg.Sleep.Enabled = true
+			cfg.Sleep.PersistState = false
+			cfg.Sleep.PollInterval = time.Hour
+			cfg.Sleep.PollIntervalJitter = 0
+			cfg.Sleep.PollDuration = 30 * time.Second
+			a, err := agent.New(cfg)
+			if err != nil {
+				panic(err)
+			}
+			var mu sync.Mutex
+			agent.VerifSetYieldHook(func(point string) {
+				if point == "agent.dopoll.before-disconnect" {
+					mu.Lock()
+					o.ReachedDisconnect = true
+					mu.Unlock()
+				}
+			})
+			defer agent.VerifSetYieldHook(nil)
+			mgr := a.VerifInitSleepManager(sleep.Callbacks{
+				OnSleep: func() error { return nil },
+				OnWake:  func() error { return nil },
+				OnPoll:  a.VerifDoPoll,
+			})
+			defer func() {
+				mgr.Stop()
+				a.Stop()
+			}()
+			if err := mgr.Sleep(); err != nil {
+				panic(err)
+			}
+			time.Sleep(time.Hour + time.Millisecond) // the poll timer fires, doPoll starts its 30 s window
+			synctest.Wait()
+			time.Sleep(time.Duration(wakeAfterMs) * time.Millisecond)
+			if err := mgr.Wake(); err != nil {
+				o.WakeErr = err.Error()
+			}
+			time.Sleep(40 * time.Second) // the poll window ends
+			synctest.Wait()
+			o.StateAtEnd = int(mgr.GetState())
 			o.PausedEnd = a.VerifPeersPaused()
 		})
 	})
@@ -614,6 +693,8 @@ func contention(dir, scenario string, delayMs int) (o contObs) {
 
 func runtimeGosched() { runtime.Gosched() }
 
+var errCallback = fmt.Errorf("callback failed (harness)")
+
 var edgeOK = map[[2]int]bool{{0, 1}: true, {1, 2}: true, {2, 1}: true, {1, 0}: true, {2, 0}: true}
 
 // monitor: the text of C30 on the observations (no model).
@@ -642,6 +723,10 @@ func monitor(c *vh.Ctx, cs *caseSpec, out []obs) {
 			}
 			prev = o
 			continue
+		}
+		// a transition whose callback failed did not happen
+		if a.Kind == "finishfail" && (o.State != prev.State || o.Writes != prev.Writes) {
+			c.Fail("failed-transition-took-effect", fmt.Sprintf("action %d (%s): the callback returned an error, yet state %d -> %d, state file written: %v", i, a, prev.State, o.State, o.Writes != prev.Writes), cs)
 		}
 		// edges
 		if o.State != prev.State && !edgeOK[[2]int{prev.State, o.State}] {
@@ -714,6 +799,8 @@ func coqAction(a action) string {
 		return "AWake"
 	case "finish":
 		return fmt.Sprintf("AFinish %d", a.Idx)
+	case "finishfail":
+		return fmt.Sprintf("AFinishFail %d", a.Idx)
 	case "fire":
 		return "AFire"
 	case "enter":
@@ -792,7 +879,7 @@ func TestVerif(t *testing.T) {
 		cs := &caseSpec{}
 		for _, w := range strings.Fields(s) {
 			a := action{Kind: w}
-			for _, pre := range []string{"finish", "pollend", "pollfail", "enter"} {
+			for _, pre := range []string{"finishfail", "finish", "pollend", "pollfail", "enter"} {
 				if strings.HasPrefix(w, pre) {
 					a.Kind = pre
 					fmt.Sscan(w[len(pre):], &a.Idx)
@@ -837,6 +924,23 @@ func TestVerif(t *testing.T) {
 		}
 
 	}
+	runAgentLocalWake := func(afterMs int64) {
+		nDir++
+		dir := filepath.Join(base, fmt.Sprintf("agentlw%d", nDir))
+		os.MkdirAll(dir, 0o755)
+		lo, p := agentLocalWake(t, dir, afterMs)
+		rp := map[string]any{"scenario": "agent-local-wake", "delay_ms": afterMs, "observed": lo}
+		if p != "" {
+			c.Fail("panic", p, rp)
+			return
+		}
+		c.Case(fmt.Sprintf("agent-local-wake/%d", afterMs), true, rp)
+		c.Count("agent-local-wake")
+		coq = append(coq, "[]")
+		if lo.WakeErr == "" && lo.StateAtEnd == 0 && (lo.ReachedDisconnect || lo.PausedEnd) {
+			c.Fail("agent-dopoll-disconnects-after-local-wake", fmt.Sprintf("the agent was woken through the local path %d ms into its poll window (state AWAKE); when the window ended doPoll went on to DisconnectAll (reached=%v, reconnection paused=%v)", afterMs, lo.ReachedDisconnect, lo.PausedEnd), rp)
+		}
+	}
 	runAgentDoPoll := func(wake bool) {
 		nDir++
 		dir := filepath.Join(base, fmt.Sprintf("agent%d", nDir))
@@ -869,6 +973,8 @@ func TestVerif(t *testing.T) {
 		}
 		seen = map[string]bool{}
 		switch {
+		case cs.Scenario == "agent-local-wake":
+			runAgentLocalWake(int64(cs.DelayMs))
 		case cs.Scenario == "agent-dopoll":
 			runAgentDoPoll(cs.Wake != nil && *cs.Wake)
 		case cs.Scenario != "":
@@ -894,6 +1000,9 @@ func TestVerif(t *testing.T) {
 			"sleep finish0 fire enter0 pollend0 fire enter1 pollend1 wake finish1",
 			// refusals
 			"sleep finish0 sleep wake finish2 wake",
+			// a failing OnSleep / OnWake: no transition, the file untouched, a retry goes through
+			"sleep finishfail0 sleep finish1 wake finishfail2 wake finish3",
+			"sleep finish0 fire enter0 wake finishfail1 pollend0 wake finish2 stop-load",
 			// histories that span restarts: sleep, process exit, new manager loads SLEEPING, wake before any poll, exit, restart
 			"sleep finish0 stop-load wake finish1 stop-load sleep finish2",
 			"sleep finish0 crash-start wake finish1 crash-load",
@@ -915,6 +1024,9 @@ func TestVerif(t *testing.T) {
 		// agent level: doPoll's unlocked "state read, then DisconnectAll" against a completing Wake
 		for _, wake := range []bool{true, false} {
 			runAgentDoPoll(wake)
+		}
+		for _, ms := range []int64{0, 1000, 29000} {
+			runAgentLocalWake(ms)
 		}
 		// real-time lock-contention scenarios (monitor only)
 		for _, sc := range []string{"poll-while-wake-holds-lock", "wake-during-poll-end"} {
@@ -938,7 +1050,7 @@ func TestVerif(t *testing.T) {
 				// witnesses and the random schedules
 				var keep []action
 				for _, a := range en {
-					if a.Kind != "stop-start" && a.Kind != "crash-load" && a.Kind != "pollfail" {
+					if a.Kind != "stop-start" && a.Kind != "crash-load" && a.Kind != "pollfail" && a.Kind != "finishfail" {
 						keep = append(keep, a)
 					}
 				}
@@ -977,6 +1089,10 @@ func TestVerif(t *testing.T) {
 							fin = append(fin, a)
 						} else {
 							other = append(other, a)
+						}
+					case "finishfail":
+						if r.Chance(1, 5) {
+							fin = append([]action{a}, fin...)
 						}
 					case "finish":
 						fin = append(fin, a)
